@@ -183,7 +183,13 @@ def junction_ok(tbl, k, rows):
 
 
 def cmp_holds(op, a, b):
-    return {'lt': a < b, 'le': a <= b, 'gt': a > b, 'ge': a >= b}[op]
+    if op == 'lt':
+        return a < b
+    if op == 'le':
+        return a <= b
+    if op == 'gt':
+        return a > b
+    return a >= b
 
 
 def figure_tax_q(d, x, st):
@@ -685,16 +691,17 @@ class Emitter(object):
 
     def obligation(self, oid, check, expr, holds, witnesses=None, counts=None, doc=None):
         """`expr` is a Lean Bool expression; proves `= true` or, when it is false on this tree, `= false`."""
-        if doc:
-            self.add(f'/-- {comment_safe(doc)} -/')
         rec = dict(id=oid, property='C07', year=self.year, check=check, holds=bool(holds), counts=counts or {},
                    module=f'HabuVerif.Gen.C07_{self.year}')
+        docline = [f'/-- {comment_safe(doc)} -/'] if doc else []
         if holds:
+            self.add(*docline)
             self.add(f'theorem {oid} : {expr} = true := by decide +kernel')
         else:
             ws = witnesses or [{}]
             for w in ws:
                 self.add(f'-- FAILED-OBLIGATION {oid} {comment_safe(json.dumps(w, sort_keys=True))}')
+            self.add(*docline)
             self.add(f'theorem {oid} : {expr} = false := by decide +kernel')
             rec['witnesses'] = ws
             self.failed.append(dict(id=oid, property='C07', year=self.year, check=check, witnesses=ws))
@@ -935,7 +942,6 @@ def emit_year(info, ends):
                 em.add(f'    figureTaxQ {D} x st = .error .assertion := by')
                 em.add(f'  have hg : (({a}, {b}) : Nat × Nat) ∈ tableGaps 0 {D}.table tableTop := by')
                 em.add(f'    rw [show {D}.table = {T} from rfl, table_gaps_{Y}]; simp')
-                em.add(f'  have hb : (100000 : Rat) = ((100000 : Nat) : Rat) := by norm_num')
                 em.add(f'  refine figureTaxQ_in_gap checkedBase_{Y} st hg (by simpa using h1) (by simpa using h2) ?_')
                 em.add(f'  have : ({b} : Rat) ≤ 100000 := by norm_num')
                 em.add('  linarith')
